@@ -856,7 +856,7 @@ pub mod c04_pure {
         }
         // 16-lane Fp25519 shares: every lane has its own coefficient
         let ell_m1 = "7237005577332262213973186563042994240857116359379907606001950938285454250988";
-        let mut lane_vals = |rng: &mut Rng, style: usize| -> String {
+        let lane_vals = |rng: &mut Rng, style: usize| -> String {
             (0..16)
                 .map(|i| match style {
                     0 => "0".to_string(),
